@@ -1,7 +1,7 @@
 SPECIFICATION Spec
 CONSTANTS
-  MaxN = 5
+  MaxN = 4
   MoveNotClone = TRUE
-  KeepOnAppend = TRUE
+  KeepOnAppend = FALSE
 INVARIANT NoViolation
 CHECK_DEADLOCK FALSE
